@@ -268,6 +268,16 @@ theorem boundIn_unique {log : List Ev} (ht : TraceOk log) {k : Nat} {fl fl' : BF
   obtain ⟨_, _, _, h2⟩ := h2
   exact (bound_unique ht h1 h2).2.2.2
 
+/-- Binding order read off the trace: a `FIRST` bind goes to the front, any other to the back. -/
+def bindOrder : List Ev → List Nat
+  | [] => []
+  | .bound k _ _ first _ :: pre => if first then k :: bindOrder pre else bindOrder pre ++ [k]
+  | _ :: pre => bindOrder pre
+
+theorem bindOrder_cons_of_affects_none {e : Ev} (log : List Ev) (h : e.affects = none) :
+    bindOrder (e :: log) = bindOrder log := by
+  cases e <;> simp_all [bindOrder, Ev.affects]
+
 /-! ### the state invariant of the repaired model -/
 
 def liveKey (l : List Node) (k : Nat) : Prop := ∃ b ∈ l, b.key = k ∧ b.id ≠ TOMBSTONE
@@ -284,10 +294,12 @@ structure Inv (st : St) : Prop where
   boundInfo : ∀ b ∈ st.list, ∃ id ev first, Ev.bound b.key id ev first b.flags ∈ st.log ∧ (b.id ≠ TOMBSTONE → ev = b.ev ∧ id = b.id)
   liveIff : ∀ k, liveKey st.list k ↔ liveAt st.log k
   trace : TraceOk st.log
+  /-- the chain is in binding order -/
+  order : (keys st.list).Sublist (bindOrder st.log)
 
 theorem Inv.init : Inv St.init := by
   refine ⟨by simp [St.init], by simp [St.init], by simp [St.init], by simp [St.init], by simp [St.init], by simp [St.init],
-    by simp [St.init], by simp [St.init], by simp [St.init], ?_, by simp [St.init, TraceOk]⟩
+    by simp [St.init], by simp [St.init], by simp [St.init], ?_, by simp [St.init, TraceOk], by simp [St.init, bindOrder]⟩
   intro k
   simp [St.init, liveKey, liveAt, boundIn]
 
@@ -307,7 +319,8 @@ theorem Inv.of_push {st st' : St} (h : Inv st) (hl : st'.list = st.list) (hs : s
     (hk : ∀ k, e.key? = some k → k < st.slotIds.length) (hok : EvOk e st.log)
     (ht : ∀ b ∈ st.list, b.id = TOMBSTONE → st'.isIter = true ∧ st'.needsDelete = true) : Inv st' := by
   refine ⟨by rw [hl]; exact h.keysNodup, by rw [hl, hs]; exact h.keysLt, by rw [hl]; exact h.idsUnique,
-    by rw [hl]; exact h.idsPos, by rw [hl]; exact h.liveFn, by rw [hl]; exact ht, by rw [hs]; exact h.slotPos, ?_, ?_, ?_, ?_⟩
+    by rw [hl]; exact h.idsPos, by rw [hl]; exact h.liveFn, by rw [hl]; exact ht, by rw [hs]; exact h.slotPos, ?_, ?_, ?_, ?_,
+    by rw [hl, hlog, bindOrder_cons_of_affects_none _ haff]; exact h.order⟩
   · intro e' he' k hk'
     rw [hlog] at he'; rw [hs]
     rcases List.mem_cons.1 he' with rfl | he'
@@ -363,7 +376,8 @@ theorem Inv.of_kill {st st' : St} (h : Inv st) {b : Node} (hb : b ∈ st.list) (
     (hl : st'.list = modifyKey st.list b.key f) (hs : st'.slotIds = st.slotIds)
     {e : Ev} (hlog : st'.log = e :: st.log) (hekey : e.key? = some b.key) (haff : e.affects = some b.key)
     (hdead : ¬ liveAt (e :: st.log) b.key) (hok : EvOk e st.log)
-    (hit : st'.isIter = true) (hnd : st'.needsDelete = true) : Inv st' := by
+    (hit : st'.isIter = true) (hnd : st'.needsDelete = true)
+    (hbo : bindOrder (e :: st.log) = bindOrder st.log) : Inv st' := by
   have hfk : ∀ a, (f a).key = a.key := fun a => (hf a).1
   have hmem : ∀ x ∈ st'.list, ∃ a ∈ st.list, (x = a ∧ a.key ≠ b.key) ∨ (x = f a ∧ a.key = b.key) := by
     intro x hx
@@ -372,7 +386,8 @@ theorem Inv.of_kill {st st' : St} (h : Inv st) {b : Node} (hb : b ∈ st.list) (
     by_cases hak : a.key = b.key
     · exact ⟨a, ha, Or.inr ⟨by simp [hak], hak⟩⟩
     · exact ⟨a, ha, Or.inl ⟨by simp [hak], hak⟩⟩
-  refine ⟨by rw [hl, keys_modifyKey _ _ _ hfk]; exact h.keysNodup, ?_, ?_, ?_, ?_, ?_, by rw [hs]; exact h.slotPos, ?_, ?_, ?_, ?_⟩
+  refine ⟨by rw [hl, keys_modifyKey _ _ _ hfk]; exact h.keysNodup, ?_, ?_, ?_, ?_, ?_, by rw [hs]; exact h.slotPos, ?_, ?_, ?_, ?_,
+    by rw [hl, hlog, hbo, keys_modifyKey _ _ _ hfk]; exact h.order⟩
   · intro x hx
     obtain ⟨a, ha, (⟨rfl, _⟩ | ⟨rfl, _⟩)⟩ := hmem x hx
     · rw [hs]; exact h.keysLt _ ha
@@ -446,7 +461,8 @@ theorem Inv.of_fire_keep {st st' : St} (h : Inv st) {b : Node} (hb : b ∈ st.li
     (ht : ∀ b ∈ st.list, b.id = TOMBSTONE → st'.isIter = true ∧ st'.needsDelete = true) : Inv st' := by
   have hla : liveAt st.log b.key := (h.liveIff b.key).1 ⟨b, hb, rfl, hlive⟩
   refine ⟨by rw [hl]; exact h.keysNodup, by rw [hl, hs]; exact h.keysLt, by rw [hl]; exact h.idsUnique,
-    by rw [hl]; exact h.idsPos, by rw [hl]; exact h.liveFn, by rw [hl]; exact ht, by rw [hs]; exact h.slotPos, ?_, ?_, ?_, ?_⟩
+    by rw [hl]; exact h.idsPos, by rw [hl]; exact h.liveFn, by rw [hl]; exact ht, by rw [hs]; exact h.slotPos, ?_, ?_, ?_, ?_,
+    by rw [hl, hlog]; exact h.order⟩
   · intro e' he' k hk'
     rw [hlog] at he'; rw [hs]
     rcases List.mem_cons.1 he' with rfl | he'
@@ -492,7 +508,8 @@ theorem Inv.of_erase {st st' : St} (h : Inv st) {b : Node} (hb : b ∈ st.list) 
   have hsub : ∀ x ∈ st'.list, x ∈ st.list := fun x hx => by rw [hl] at hx; exact (mem_eraseKey.1 hx).1
   refine ⟨by rw [hl]; exact nodup_keys_filter _ h.keysNodup, fun x hx => by rw [hs]; exact h.keysLt x (hsub x hx),
     fun x1 h1 x2 h2 => h.idsUnique x1 (hsub x1 h1) x2 (hsub x2 h2), fun x hx => h.idsPos x (hsub x hx),
-    fun x hx => h.liveFn x (hsub x hx), fun x hx hxt => absurd hxt (hnt x (hsub x hx)), by rw [hs]; exact h.slotPos, ?_, ?_, ?_, ?_⟩
+    fun x hx => h.liveFn x (hsub x hx), fun x hx hxt => absurd hxt (hnt x (hsub x hx)), by rw [hs]; exact h.slotPos, ?_, ?_, ?_, ?_,
+    by rw [hl, hlog]; exact (List.Sublist.map _ List.filter_sublist).trans h.order⟩
   · intro e' he' k hk'
     rw [hlog] at he'; rw [hs]
     rcases List.mem_cons.1 he' with rfl | he'
@@ -527,7 +544,8 @@ theorem Inv.of_sweep {st st' : St} (h : Inv st) (hl : st'.list = sweep st.list) 
   have hsub : ∀ x ∈ st'.list, x ∈ st.list ∧ x.id ≠ TOMBSTONE := fun x hx => by rw [hl] at hx; exact mem_sweep.1 hx
   refine ⟨by rw [hl]; exact nodup_keys_filter _ h.keysNodup, fun x hx => by rw [hs]; exact h.keysLt x (hsub x hx).1,
     fun x1 h1 x2 h2 => h.idsUnique x1 (hsub x1 h1).1 x2 (hsub x2 h2).1, fun x hx => h.idsPos x (hsub x hx).1,
-    fun x hx => h.liveFn x (hsub x hx).1, fun x hx hxt => absurd hxt (hsub x hx).2, by rw [hs]; exact h.slotPos, ?_, ?_, ?_, ?_⟩
+    fun x hx => h.liveFn x (hsub x hx).1, fun x hx hxt => absurd hxt (hsub x hx).2, by rw [hs]; exact h.slotPos, ?_, ?_, ?_, ?_,
+    by rw [hl, hlog, bindOrder_cons_of_affects_none _ (affects_none_of_key_none he)]; exact (List.Sublist.map _ List.filter_sublist).trans h.order⟩
   · intro e' he' k hk'
     rw [hlog] at he'; rw [hs]
     rcases List.mem_cons.1 he' with rfl | he'
@@ -555,7 +573,12 @@ theorem Inv.of_bind {st : St} (h : Inv st) (ev : Int) (first : Bool) (flags : BF
     simp only [Tickit.Bindings.bindEvent]
     split <;> simp [node, or_comm]
   have hnodeLive : node.id ≠ TOMBSTONE := by simp [node, TOMBSTONE]; omega
-  refine ⟨?_, ?_, ?_, ?_, ?_, ?_, ?_, ?_, ?_, ?_, ?_⟩
+  refine ⟨?_, ?_, ?_, ?_, ?_, ?_, ?_, ?_, ?_, ?_, ?_, ?_⟩
+  rotate_right
+  · simp only [Tickit.Bindings.bindEvent, bindOrder]
+    split
+    · simp only [keys_cons]; exact h.order.cons_cons _
+    · rw [keys_append]; exact List.Sublist.append h.order (List.Sublist.refl _)
   · simp only [Tickit.Bindings.bindEvent]
     split
     · simp only [keys_cons, List.nodup_cons]
@@ -654,31 +677,57 @@ theorem Inv.of_bind {st : St} (h : Inv st) (ev : Int) (first : Bool) (flags : BF
 @[simp] theorem repaired_wfOneshot : Cfg.repaired.wfOneshot = true := rfl
 @[simp] theorem repaired_notifyLast : Cfg.repaired.notifyLast = true := rfl
 
-/-- Two-state facts about a completed task. -/
-structure Step (st st' : St) : Prop where
+/-- Two-state facts about a completed task.  `own` is the occurrence the task itself delivers for (a walker), if any. -/
+structure Step (own : Option Nat) (st st' : St) : Prop where
   /-- the iteration guard is restored -/
   iter : st'.isIter = st.isIter
-  /-- while a walker runs nothing is unlinked -/
-  keysIter : st.isIter = true → ∀ k ∈ keys st.list, k ∈ keys st'.list
-  /-- the trace only grows -/
-  logExt : ∃ seg, st'.log = seg ++ st.log
+  /-- while a walker runs nothing is unlinked: the chain only grows at its two ends -/
+  keysIter : st.isIter = true → ∃ P A, keys st'.list = P ++ keys st.list ++ A
+  /-- occurrence numbers are handed out in increasing order -/
+  occMono : st.nextOcc ≤ st'.nextOcc
+  /-- the trace only grows, and deliveries recorded meanwhile belong to this walker or to later occurrences -/
+  logExt : ∃ seg, st'.log = seg ++ st.log ∧ ∀ k o', Ev.fire k o' ∈ seg → st.nextOcc ≤ o' ∨ own = some o'
   /-- the harness's slot table only grows -/
   slotsExt : ∃ ext, st'.slotIds = st.slotIds ++ ext
 
-theorem Step.refl (st : St) : Step st st := ⟨rfl, fun _ _ h => h, ⟨[], rfl⟩, ⟨[], by simp⟩⟩
+theorem Step.mem_keys {own : Option Nat} {st st' : St} (s : Step own st st') (hi : st.isIter = true) {k : Nat}
+    (hk : k ∈ keys st.list) : k ∈ keys st'.list := by
+  obtain ⟨P, A, h⟩ := s.keysIter hi
+  rw [h]; simp [hk]
 
-theorem Step.trans {a b c : St} (h1 : Step a b) (h2 : Step b c) : Step a c := by
-  obtain ⟨s1, hs1⟩ := h1.logExt
-  obtain ⟨s2, hs2⟩ := h2.logExt
+theorem Step.refl (own : Option Nat) (st : St) : Step own st st :=
+  ⟨rfl, fun _ => ⟨[], [], by simp⟩, Nat.le_refl _, ⟨[], rfl, by simp⟩, ⟨[], by simp⟩⟩
+
+theorem Step.trans {own : Option Nat} {a b c : St} (h1 : Step own a b) (h2 : Step own b c) : Step own a c := by
+  obtain ⟨s1, hs1, hf1⟩ := h1.logExt
+  obtain ⟨s2, hs2, hf2⟩ := h2.logExt
   obtain ⟨e1, he1⟩ := h1.slotsExt
   obtain ⟨e2, he2⟩ := h2.slotsExt
-  exact ⟨h2.iter.trans h1.iter, fun hi k hk => h2.keysIter (h1.iter.trans hi) k (h1.keysIter hi k hk),
-    ⟨s2 ++ s1, by rw [hs2, hs1, List.append_assoc]⟩, ⟨e1 ++ e2, by rw [he2, he1, List.append_assoc]⟩⟩
+  refine ⟨h2.iter.trans h1.iter, fun hi => ?_, Nat.le_trans h1.occMono h2.occMono,
+    ⟨s2 ++ s1, by rw [hs2, hs1, List.append_assoc], ?_⟩, ⟨e1 ++ e2, by rw [he2, he1, List.append_assoc]⟩⟩
+  · obtain ⟨P1, A1, hk1⟩ := h1.keysIter hi
+    obtain ⟨P2, A2, hk2⟩ := h2.keysIter (h1.iter.trans hi)
+    exact ⟨P2 ++ P1, A1 ++ A2, by rw [hk2, hk1]; simp⟩
+  · intro k o' hm
+    rcases List.mem_append.1 hm with hm | hm
+    · rcases hf2 k o' hm with h | h
+      · exact Or.inl (Nat.le_trans h1.occMono h)
+      · exact Or.inr h
+    · exact hf1 k o' hm
+
+theorem Step.weaken {own : Option Nat} {a b : St} (h : Step none a b) : Step own a b := by
+  obtain ⟨s, hs, hf⟩ := h.logExt
+  refine ⟨h.iter, h.keysIter, h.occMono, ⟨s, hs, fun k o' hm => ?_⟩, h.slotsExt⟩
+  rcases hf k o' hm with h | h
+  · exact Or.inl h
+  · cases h
 
 /-- a state change that keeps the keys and the slots and records one event -/
-theorem Step.of_keys {st st' : St} (hi : st'.isIter = st.isIter) (hk : keys st'.list = keys st.list)
-    (hlog : ∃ seg, st'.log = seg ++ st.log) (hs : st'.slotIds = st.slotIds) : Step st st' :=
-  ⟨hi, fun _ k h => by rw [hk]; exact h, hlog, ⟨[], by simp [hs]⟩⟩
+theorem Step.of_keys {own : Option Nat} {st st' : St} (hi : st'.isIter = st.isIter) (hk : keys st'.list = keys st.list)
+    (ho : st.nextOcc ≤ st'.nextOcc) {e : Ev} (hlog : st'.log = e :: st.log)
+    (he : ∀ k o', e = Ev.fire k o' → own = some o') (hs : st'.slotIds = st.slotIds) : Step own st st' :=
+  ⟨hi, fun _ => ⟨[], [], by simp [hk]⟩, ho, ⟨[e], by simp [hlog], fun k o' hm => by
+    simp only [List.mem_singleton] at hm; exact Or.inr (he k o' hm.symm)⟩, ⟨[], by simp [hs]⟩⟩
 
 def NoDestroy (beh : Behaviour) : Prop := ∀ h n, Action.destroy ∉ (beh h n).acts
 
@@ -686,15 +735,20 @@ def NoDestroy (beh : Behaviour) : Prop := ∀ h n, Action.destroy ∉ (beh h n).
 def TaskOk (task : Task) (st : St) : Prop :=
   match task with
   | .runEvent _ _ => True
-  | .walk _ _ _ cur => st.isIter = true ∧ ∀ k, cur = some k → k ∈ keys st.list
+  | .walk _ _ occ cur => st.isIter = true ∧ (∀ k, cur = some k → k ∈ keys st.list) ∧ occ < st.nextOcc
   | .unbindId id => id ≠ TOMBSTONE
   | .unbindLoopOrig _ _ => False
   | .call key fn fl occ => fn ≠ none ∧ key < st.slotIds.length ∧ ∀ h n, EvOk (Ev.enter key h n fl occ) st.log
   | .acts _ _ as => ∀ a ∈ as, a ≠ Action.destroy
   | .destroyLoop _ => False
 
-def Post (st : St) : Res (St × Int) → Prop
-  | .ok (st', _) => Inv st' ∧ Step st st'
+/-- the occurrence a task delivers for -/
+def occOf : Task → Option Nat
+  | .walk _ _ o _ => some o
+  | _ => none
+
+def Post (own : Option Nat) (st : St) : Res (St × Int) → Prop
+  | .ok (st', _) => Inv st' ∧ Step own st st'
   | .ub _ => False
   | .outOfFuel => True
 
@@ -703,14 +757,21 @@ variable (own : Owner) (beh : Behaviour)
 
 /-- induction hypothesis of the main theorem, for one amount of fuel -/
 def Good (fuel : Nat) : Prop :=
-  ∀ task st, Inv st → TaskOk task st → Post st (exec Cfg.repaired own beh fuel task st)
+  ∀ task st, Inv st → TaskOk task st → Post (occOf task) st (exec Cfg.repaired own beh fuel task st)
 
 theorem good_runEvent {fuel : Nat} (ih : Good own beh fuel) (wf : Bool) (ev : Int) (st : St) (h : Inv st) :
-    Post st (exec Cfg.repaired own beh (fuel + 1) (.runEvent wf ev) st) := by
+    Post none st (exec Cfg.repaired own beh (fuel + 1) (.runEvent wf ev) st) := by
   simp only [exec]
   have h1 : Inv { st with isIter := true, nextOcc := st.nextOcc + 1, log := Ev.occBegin st.nextOcc ev wf :: st.log } :=
     h.of_push rfl rfl rfl rfl (by simp [Ev.key?]) (by simp [EvOk]) (fun b hb ht => ⟨rfl, (h.tombIter b hb ht).2⟩)
-  have hw := ih (.walk wf ev st.nextOcc (firstOf st.list)) _ h1 ⟨rfl, fun k hk => firstOf_mem hk⟩
+  have hw := ih (.walk wf ev st.nextOcc (firstOf st.list)) _ h1 ⟨rfl, fun k hk => firstOf_mem hk, Nat.lt_succ_self _⟩
+  have hfires : ∀ (seg : List Ev), (∀ k o', Ev.fire k o' ∈ seg → st.nextOcc + 1 ≤ o' ∨ some st.nextOcc = some o') →
+      ∀ k o', Ev.fire k o' ∈ Ev.occEnd st.nextOcc :: (seg ++ [Ev.occBegin st.nextOcc ev wf]) → st.nextOcc ≤ o' ∨ (none : Option Nat) = some o' := by
+    intro seg hf k o' hm
+    simp only [List.mem_cons, List.mem_append, List.not_mem_nil, reduceCtorEq, false_or, or_false] at hm
+    rcases hf k o' hm with h | h
+    · exact Or.inl (by omega)
+    · injection h with h; exact Or.inl (by omega)
   cases hres : exec Cfg.repaired own beh fuel (.walk wf ev st.nextOcc (firstOf st.list))
       { st with isIter := true, nextOcc := st.nextOcc + 1, log := Ev.occBegin st.nextOcc ev wf :: st.log } with
   | outOfFuel => simp [Post]
@@ -723,14 +784,16 @@ theorem good_runEvent {fuel : Nat} (ih : Good own beh fuel) (wf : Bool) (ev : In
     split
     · rename_i hc
       simp only [Bool.and_eq_true, Bool.not_eq_true'] at hc
-      obtain ⟨seg, hseg⟩ := s2.logExt
-      refine ⟨h2.of_sweep rfl rfl rfl rfl, rfl, fun hi => ?_, ⟨Ev.occEnd st.nextOcc :: (seg ++ [Ev.occBegin st.nextOcc ev wf]), by simp [hseg]⟩, s2.slotsExt⟩
+      obtain ⟨seg, hseg, hfseg⟩ := s2.logExt
+      refine ⟨h2.of_sweep rfl rfl rfl rfl, rfl, fun hi => ?_, Nat.le_trans (Nat.le_succ _) s2.occMono,
+        ⟨Ev.occEnd st.nextOcc :: (seg ++ [Ev.occBegin st.nextOcc ev wf]), by simp [hseg], hfires seg hfseg⟩, s2.slotsExt⟩
       rw [hc.1] at hi; cases hi
     · rename_i hc
       simp only [Bool.and_eq_true, Bool.not_eq_true', not_and, Bool.not_eq_true] at hc
-      obtain ⟨seg, hseg⟩ := s2.logExt
-      refine ⟨h2.of_push rfl rfl rfl rfl (by simp [Ev.key?]) (by simp [EvOk]) ?_, rfl, fun hi k hk => s2.keysIter rfl k hk,
-        ⟨Ev.occEnd st.nextOcc :: (seg ++ [Ev.occBegin st.nextOcc ev wf]), by simp [hseg]⟩, s2.slotsExt⟩
+      obtain ⟨seg, hseg, hfseg⟩ := s2.logExt
+      refine ⟨h2.of_push rfl rfl rfl rfl (by simp [Ev.key?]) (by simp [EvOk]) ?_, rfl, fun _ => s2.keysIter rfl,
+        Nat.le_trans (Nat.le_succ _) s2.occMono,
+        ⟨Ev.occEnd st.nextOcc :: (seg ++ [Ev.occBegin st.nextOcc ev wf]), by simp [hseg], hfires seg hfseg⟩, s2.slotsExt⟩
       intro b hb ht
       have hnd := (h2.tombIter b hb ht).2
       refine ⟨?_, hnd⟩
@@ -741,7 +804,7 @@ theorem good_runEvent {fuel : Nat} (ih : Good own beh fuel) (wf : Bool) (ev : In
 
 theorem good_call {fuel : Nat} (hb : NoDestroy beh) (ih : Good own beh fuel) (key : Nat) (fn : Option Nat) (fl occ : Nat) (st : St)
     (h : Inv st) (hok : TaskOk (.call key fn fl occ) st) :
-    Post st (exec Cfg.repaired own beh (fuel + 1) (.call key fn fl occ) st) := by
+    Post none st (exec Cfg.repaired own beh (fuel + 1) (.call key fn fl occ) st) := by
   obtain ⟨hfn, hkey, hev⟩ := hok
   cases fn with
   | none => exact absurd rfl hfn
@@ -769,16 +832,19 @@ theorem good_call {fuel : Nat} (hb : NoDestroy beh) (ih : Good own beh fuel) (ke
       rw [hres] at hw
       obtain ⟨h2, s2⟩ := hw
       refine ⟨h2.of_push rfl rfl rfl rfl (by simp [Ev.key?]) (by simp [EvOk]) (fun b hb' ht => h2.tombIter b hb' ht), ?_⟩
-      obtain ⟨seg, hseg⟩ := s2.logExt
-      exact ⟨s2.iter, fun hi k hk => s2.keysIter hi k hk,
-        ⟨Ev.leave (beh hh (st.inv hh)).ret :: (seg ++ [Ev.enter key hh (st.inv hh) fl occ]), by simp [St.push, hseg]⟩, s2.slotsExt⟩
+      obtain ⟨seg, hseg, hfseg⟩ := s2.logExt
+      refine ⟨s2.iter, s2.keysIter, s2.occMono,
+        ⟨Ev.leave (beh hh (st.inv hh)).ret :: (seg ++ [Ev.enter key hh (st.inv hh) fl occ]), by simp [St.push, hseg], ?_⟩, s2.slotsExt⟩
+      intro k o' hm
+      simp only [List.mem_cons, List.mem_append, List.not_mem_nil, reduceCtorEq, false_or, or_false] at hm
+      exact hfseg k o' hm
 
 theorem good_walk {fuel : Nat} (ih : Good own beh fuel) (wf : Bool) (ev : Int) (occ : Nat) (cur : Option Nat) (st : St)
     (h : Inv st) (hok : TaskOk (.walk wf ev occ cur) st) :
-    Post st (exec Cfg.repaired own beh (fuel + 1) (.walk wf ev occ cur) st) := by
-  obtain ⟨hit, hcur⟩ := hok
+    Post (some occ) st (exec Cfg.repaired own beh (fuel + 1) (.walk wf ev occ cur) st) := by
+  obtain ⟨hit, hcur, hocc⟩ := hok
   cases cur with
-  | none => simp only [exec]; exact ⟨h, Step.refl st⟩
+  | none => simp only [exec]; exact ⟨h, Step.refl _ st⟩
   | some k =>
     have hk : k ∈ keys st.list := hcur k rfl
     obtain ⟨b, hfb⟩ := findKey_of_mem hk
@@ -796,7 +862,7 @@ theorem good_walk {fuel : Nat} (ih : Good own beh fuel) (wf : Bool) (ev : Int) (
         | true =>
           obtain ⟨id, ev', first, hm, _⟩ := h.boundInfo b hbm
           exact h.of_kill hbm hlive (f := fun b => { b with id := TOMBSTONE }) (fun a => ⟨rfl, rfl, rfl⟩) (by simp) rfl rfl rfl rfl
-            (not_liveAt_fire_oneshot h.trace ⟨id, ev', first, hm⟩ ho) ((h.liveIff b.key).1 ⟨b, hbm, rfl, hlive⟩) hit (by simp)
+            (not_liveAt_fire_oneshot h.trace ⟨id, ev', first, hm⟩ ho) ((h.liveIff b.key).1 ⟨b, hbm, rfl, hlive⟩) hit (by simp) rfl
         | false =>
           exact h.of_fire_keep hbm hlive ho (by simp) rfl rfl (fun x hx hxt => ⟨hit, by simpa using (h.tombIter x hx hxt).2⟩)
       have hkeys1 : keys (if b.flags.oneshot = true then modifyKey st.list b.key (fun b => { b with id := TOMBSTONE }) else st.list)
@@ -822,19 +888,20 @@ theorem good_walk {fuel : Nat} (ih : Good own beh fuel) (wf : Bool) (ev : Int) (
         obtain ⟨st2, r⟩ := p
         rw [hres] at hw
         obtain ⟨h2, s2⟩ := hw
-        have s02 : Step st st2 := (Step.of_keys (st := st) (st' := { st with
+        have s02 : Step (some occ) st st2 := (Step.of_keys (st := st) (st' := { st with
             list := if b.flags.oneshot = true then modifyKey st.list b.key (fun b => { b with id := TOMBSTONE }) else st.list,
             needsDelete := b.flags.oneshot || st.needsDelete, log := Ev.fire b.key occ :: st.log }) rfl hkeys1
-            ⟨[Ev.fire b.key occ], rfl⟩ rfl).trans s2
+            (Nat.le_refl _) rfl (fun k o' he => by injection he with _ he; rw [he]) rfl).trans s2.weaken
         simp only
         split
         · exact ⟨h2, s02⟩
-        · have hk2 : b.key ∈ keys st2.list := s02.keysIter hit _ hk
+        · have hk2 : b.key ∈ keys st2.list := s02.mem_keys hit hk
           cases hn : nextOf st2.list b.key with
           | none => exact absurd hk2 (nextOf_none hn)
           | some nx =>
             simp only
-            have hw2 := ih (.walk wf ev occ nx) st2 h2 ⟨s02.iter.trans hit, fun k' hk' => nextOf_some_mem (hk' ▸ hn)⟩
+            have hw2 := ih (.walk wf ev occ nx) st2 h2 ⟨s02.iter.trans hit, fun k' hk' => nextOf_some_mem (hk' ▸ hn),
+              Nat.lt_of_lt_of_le hocc s02.occMono⟩
             cases hres2 : exec Cfg.repaired own beh fuel (.walk wf ev occ nx) st2 with
             | outOfFuel => simp [Post]
             | ub w => rw [hres2] at hw2; exact hw2.elim
@@ -846,14 +913,14 @@ theorem good_walk {fuel : Nat} (ih : Good own beh fuel) (wf : Bool) (ev : Int) (
       | none => exact absurd hk (nextOf_none hn)
       | some nx =>
         simp only
-        exact ih (.walk wf ev occ nx) st h ⟨hit, fun k' hk' => nextOf_some_mem (hk' ▸ hn)⟩
+        exact ih (.walk wf ev occ nx) st h ⟨hit, fun k' hk' => nextOf_some_mem (hk' ▸ hn), hocc⟩
 
 
 theorem good_unbindId {fuel : Nat} (ih : Good own beh fuel) (id : Int) (st : St) (h : Inv st) (hid : id ≠ TOMBSTONE) :
-    Post st (exec Cfg.repaired own beh (fuel + 1) (.unbindId id) st) := by
+    Post none st (exec Cfg.repaired own beh (fuel + 1) (.unbindId id) st) := by
   simp only [exec, repaired_notifyLast, if_true]
   cases hf : findId st.list id with
-  | none => exact ⟨h, Step.refl st⟩
+  | none => exact ⟨h, Step.refl _ st⟩
   | some b =>
     obtain ⟨hbm, hbid⟩ := findId_some hf
     have hlive : b.id ≠ TOMBSTONE := by rw [hbid]; exact hid
@@ -866,15 +933,15 @@ theorem good_unbindId {fuel : Nat} (ih : Good own beh fuel) (id : Int) (st : St)
       | false => exact h.of_erase hbm hlive hi (by simp) rfl rfl
       | true =>
         exact h.of_kill hbm hlive (f := fun b => { b with id := TOMBSTONE, ev := -1, fn := none }) (fun a => ⟨rfl, rfl, rfl⟩)
-          (by simp) rfl rfl rfl rfl (not_liveAt_req _ _) ((h.liveIff b.key).1 ⟨b, hbm, rfl, hlive⟩) rfl (by simp)
-    have s1 : Step st { st with
+          (by simp) rfl rfl rfl rfl (not_liveAt_req _ _) ((h.liveIff b.key).1 ⟨b, hbm, rfl, hlive⟩) rfl (by simp) rfl
+    have s1 : Step none st { st with
         list := if (!st.isIter) = true then eraseKey st.list b.key
                 else modifyKey st.list b.key (fun b => { b with id := TOMBSTONE, ev := -1, fn := none }),
         needsDelete := st.isIter || st.needsDelete, log := Ev.unbindReq b.key :: st.log } := by
-      refine ⟨rfl, fun hi k hk => ?_, ⟨[Ev.unbindReq b.key], rfl⟩, ⟨[], by simp⟩⟩
+      refine ⟨rfl, fun hi => ⟨[], [], ?_⟩, Nat.le_refl _, ⟨[Ev.unbindReq b.key], rfl, by simp⟩, ⟨[], by simp⟩⟩
       simp only [hi, Bool.not_true, Bool.false_eq_true, if_false]
       have hkk := keys_modifyKey st.list b.key (fun b : Node => { b with id := TOMBSTONE, ev := -1, fn := none }) (fun _ => rfl)
-      rw [hkk]; exact hk
+      rw [hkk]; simp
     cases hu : b.flags.unbind with
     | false => simp only [Bool.false_eq_true, if_false]; exact ⟨h1, s1⟩
     | true =>
@@ -908,22 +975,24 @@ theorem slotIds_ne_tomb {st : St} (h : Inv st) {slot : Nat} {id : Int} (hs : st.
 
 theorem good_acts {fuel : Nat} (ih : Good own beh fuel) (self i : Nat) (as : List Action) (st : St)
     (h : Inv st) (hok : TaskOk (.acts self i as) st) :
-    Post st (exec Cfg.repaired own beh (fuel + 1) (.acts self i as) st) := by
+    Post none st (exec Cfg.repaired own beh (fuel + 1) (.acts self i as) st) := by
   cases as with
-  | nil => simp only [exec]; exact ⟨h, Step.refl st⟩
+  | nil => simp only [exec]; exact ⟨h, Step.refl _ st⟩
   | cons a rest =>
     have hrest : ∀ x ∈ rest, x ≠ Action.destroy := fun x hx => hok x (List.mem_cons_of_mem _ hx)
     have ha : a ≠ Action.destroy := hok a (List.mem_cons_self ..)
     have h1 : Inv (st.push (Ev.actBegin i)) :=
       h.of_push rfl rfl rfl rfl (by simp [Ev.key?]) (by simp [EvOk]) (fun b hb ht => h.tombIter b hb ht)
-    have s1 : Step st (st.push (Ev.actBegin i)) := Step.of_keys rfl rfl ⟨[Ev.actBegin i], rfl⟩ rfl
+    have s1 : Step none st (st.push (Ev.actBegin i)) :=
+      Step.of_keys rfl rfl (Nat.le_refl _) rfl (fun _ _ he => by cases he) rfl
     -- whatever the action does, it ends in a good state; then the rest of the list runs
-    have hcont : ∀ st2, Inv st2 → Step st st2 →
-        Post st (exec Cfg.repaired own beh fuel (.acts self (i + 1) rest) (st2.push Ev.actEnd)) := by
+    have hcont : ∀ st2, Inv st2 → Step none st st2 →
+        Post none st (exec Cfg.repaired own beh fuel (.acts self (i + 1) rest) (st2.push Ev.actEnd)) := by
       intro st2 h2 s2
       have h3 : Inv (st2.push Ev.actEnd) :=
         h2.of_push rfl rfl rfl rfl (by simp [Ev.key?]) (by simp [EvOk]) (fun b hb ht => h2.tombIter b hb ht)
-      have s3 : Step st (st2.push Ev.actEnd) := s2.trans (Step.of_keys rfl rfl ⟨[Ev.actEnd], rfl⟩ rfl)
+      have s3 : Step none st (st2.push Ev.actEnd) :=
+        s2.trans (Step.of_keys rfl rfl (Nat.le_refl _) rfl (fun _ _ he => by cases he) rfl)
       have hw := ih (.acts self (i + 1) rest) _ h3 hrest
       cases hres : exec Cfg.repaired own beh fuel (.acts self (i + 1) rest) (st2.push Ev.actEnd) with
       | outOfFuel => simp [Post]
@@ -933,12 +1002,13 @@ theorem good_acts {fuel : Nat} (ih : Good own beh fuel) (self i : Nat) (as : Lis
         rw [hres] at hw
         exact ⟨hw.1, s3.trans hw.2⟩
     -- an action that is a task
-    have htask : ∀ task, TaskOk task (st.push (Ev.actBegin i)) →
-        Post st (match exec Cfg.repaired own beh fuel task (st.push (Ev.actBegin i)) with
+    have htask : ∀ task, occOf task = none → TaskOk task (st.push (Ev.actBegin i)) →
+        Post none st (match exec Cfg.repaired own beh fuel task (st.push (Ev.actBegin i)) with
           | .ok (st2, _) => exec Cfg.repaired own beh fuel (.acts self (i + 1) rest) (st2.push Ev.actEnd)
           | e => e) := by
-      intro task htok
+      intro task hocc htok
       have hw := ih task _ h1 htok
+      rw [hocc] at hw
       cases hres : exec Cfg.repaired own beh fuel task (st.push (Ev.actBegin i)) with
       | outOfFuel => simp [Post]
       | ub w => rw [hres] at hw; exact hw.elim
@@ -949,26 +1019,26 @@ theorem good_acts {fuel : Nat} (ih : Good own beh fuel) (self i : Nat) (as : Lis
     cases a with
     | bind ev first flags hh =>
       simp only [exec]
-      refine hcont _ (h1.of_bind ev first flags hh) (s1.trans ⟨rfl, fun _ k hk => ?_, ⟨[_], rfl⟩, ⟨[_], rfl⟩⟩)
+      refine hcont _ (h1.of_bind ev first flags hh) (s1.trans ⟨rfl, fun _ => ?_, Nat.le_refl _, ⟨[_], rfl, by simp⟩, ⟨[_], rfl⟩⟩)
       simp only [bindEvent]
       split
-      · simp [hk]
-      · simp [hk]
+      · exact ⟨[st.slotIds.length], [], by simp [St.push]⟩
+      · exact ⟨[], [st.slotIds.length], by simp [St.push]⟩
     | unbind slot =>
       simp only [exec]
       cases hs : (st.push (Ev.actBegin i)).slotIds[slot]? with
       | none => simp only; exact hcont _ h1 s1
-      | some id => simp only; exact htask (.unbindId id) (slotIds_ne_tomb h1 hs)
+      | some id => simp only; exact htask (.unbindId id) rfl (slotIds_ne_tomb h1 hs)
     | unbindSelf =>
       simp only [exec]
       cases hs : (st.push (Ev.actBegin i)).slotIds[self]? with
       | none => simp only; exact hcont _ h1 s1
-      | some id => simp only; exact htask (.unbindId id) (slotIds_ne_tomb h1 hs)
+      | some id => simp only; exact htask (.unbindId id) rfl (slotIds_ne_tomb h1 hs)
     | emit ev =>
       simp only [exec]
       by_cases hc : own.canEmit ev = true
-      · simp only [hc, if_true]; exact htask (.runEvent (own.wf ev) ev) trivial
-      · simp only [hc, if_false]; exact hcont _ h1 s1
+      · simp only [hc, if_true]; exact htask (.runEvent (own.wf ev) ev) rfl trivial
+      · simp only [hc]; exact hcont _ h1 s1
     | destroy => exact absurd rfl ha
 
 /-- **Main lemma.**  For every behaviour that never destroys the owner from inside a handler, every task, every
@@ -1228,7 +1298,7 @@ theorem Inv.of_unbind {st : St} (h : Inv st) {b : Node} (hbm : b ∈ st.list) (h
   | false => exact h.of_erase hbm hlive hi (by simp) rfl rfl
   | true =>
     exact h.of_kill hbm hlive (f := fun b => { b with id := TOMBSTONE, ev := -1, fn := none }) (fun a => ⟨rfl, rfl, rfl⟩)
-      (by simp) rfl rfl rfl rfl (not_liveAt_req _ _) ((h.liveIff b.key).1 ⟨b, hbm, rfl, hlive⟩) rfl (by simp)
+      (by simp) rfl rfl rfl rfl (not_liveAt_req _ _) ((h.liveIff b.key).1 ⟨b, hbm, rfl, hlive⟩) rfl (by simp) rfl
 
 /-- A completed call has recorded the entry first. -/
 theorem exec_call_log (hb : NoDestroy beh) {fuel key hh fl occ : Nat} {st st' : St} {r : Int} (h : Inv st)
@@ -1264,7 +1334,7 @@ theorem exec_call_log (hb : NoDestroy beh) {fuel key hh fl occ : Nat} {st st' : 
       rw [hres] at hex hw
       simp only at hex
       injection hex with hex; injection hex with hex _
-      obtain ⟨seg, hseg⟩ := hw.2.logExt
+      obtain ⟨seg, hseg, _⟩ := hw.2.logExt
       exact ⟨Ev.leave (beh hh (st.inv hh)).ret :: seg, by rw [← hex]; simp [St.push, hseg]⟩
 
 /-- A completed `unbind_event_id` that found the live binding `b`: the request is recorded; if `b` asked
@@ -1333,14 +1403,14 @@ def OpOk : Op → Prop
   | _ => True
 
 def PostOp (st : St) : Res St → Prop
-  | .ok st' => Top st' ∧ Step st st'
+  | .ok st' => Top st' ∧ Step none st st'
   | .ub _ => False
   | .outOfFuel => True
 
 section
 variable (own : Owner) (beh : Behaviour)
 
-theorem postOp_of_post {st : St} (hi : st.isIter = false) {r : Res (St × Int)} (h : Post st r) :
+theorem postOp_of_post {st : St} (hi : st.isIter = false) {r : Res (St × Int)} (h : Post none st r) :
     PostOp st r.dropRet := by
   cases r with
   | ok p => obtain ⟨st', x⟩ := p; exact ⟨⟨h.1, h.2.iter.trans hi⟩, h.2⟩
@@ -1353,18 +1423,18 @@ theorem execOp_good (hb : NoDestroy beh) (fuel : Nat) (op : Op) (hop : OpOk op) 
   cases op with
   | bind ev first flags hh =>
     simp only [execOp, PostOp]
-    exact ⟨⟨h.1.of_bind ev first flags hh, h.2⟩, ⟨rfl, fun hi => (by rw [h.2] at hi; cases hi), ⟨[_], rfl⟩, ⟨[_], rfl⟩⟩⟩
+    exact ⟨⟨h.1.of_bind ev first flags hh, h.2⟩, ⟨rfl, fun hi => (by rw [h.2] at hi; cases hi), Nat.le_refl _, ⟨[_], rfl, by simp⟩, ⟨[_], rfl⟩⟩⟩
   | unbind slot =>
     simp only [execOp]
     cases hs : st.slotIds[slot]? with
-    | none => exact ⟨h, Step.refl st⟩
+    | none => exact ⟨h, Step.refl _ st⟩
     | some id => exact postOp_of_post h.2 (good (.unbindId id) st h.1 (slotIds_ne_tomb h.1 hs))
   | unbindId id => exact postOp_of_post h.2 (good (.unbindId id) st h.1 hop)
   | emit ev =>
     simp only [execOp]
     by_cases hc : own.canEmit ev = true
     · simp only [hc, if_true]; exact postOp_of_post h.2 (good (.runEvent (own.wf ev) ev) st h.1 trivial)
-    · simp only [hc]; exact ⟨h, Step.refl st⟩
+    · simp only [hc]; exact ⟨h, Step.refl _ st⟩
   | destroy => exact absurd rfl hne
 
 /-- A handler called with `TICKIT_EV_DESTROY` does nothing: the call records entry and exit only. -/
